@@ -188,7 +188,7 @@ func C19(c *core.Ctx) {
 					"the octets of the "+u.accessor+" IE are interpreted by report."+u.typ+".Unmarshal only "+why)
 			}
 		}
-		c.Floor("R3", n, 2, "uses of the raw "+u.accessor+" payload")
+		c.Floor("R3", n, 1, "uses of the raw "+u.accessor+" payload")
 	}
 	// R3 encoders
 	for _, e := range []struct{ typ, ctor string }{{"ReportingTrigger", "NewReportingTriggers"}, {"UsageReportTrigger", "NewUsageReportTrigger"}} {
@@ -430,7 +430,23 @@ func checkFlagIE(c *core.Ctx, fn *ssa.Function, typ string, flags *types.Var, ct
 	// constructor gets buf[:3]
 	var okArg bool
 	if len(mk.Call.Args) == 1 {
-		if sl, ok := mk.Call.Args[0].(*ssa.Slice); ok && core.Unwrap(sl.X) == core.Unwrap(args[0]) && sl.Low == nil {
+		// same backing store, both from offset 0: buf / buf[:] / arr[:]
+		root := func(v ssa.Value) ssa.Value {
+			v = core.Unwrap(v)
+			for {
+				sl, ok := v.(*ssa.Slice)
+				if !ok {
+					return v
+				}
+				if sl.Low != nil {
+					if z, isZ := core.ConstInt(sl.Low); !isZ || z != 0 {
+						return v
+					}
+				}
+				v = core.Unwrap(sl.X)
+			}
+		}
+		if sl, ok := mk.Call.Args[0].(*ssa.Slice); ok && root(sl.X) == root(args[0]) && sl.Low == nil {
 			if n, ok := core.ConstInt(sl.High); ok && n == 3 {
 				okArg = true
 			}
